@@ -20,6 +20,11 @@ type scene struct {
 	hi    v3
 	scale float64 // max(1, largest |coordinate|)
 
+	// the previous ray query on this scene (round 11, C16-P: marching along one ray with a growing min)
+	hasLastRay       bool
+	lastO, lastD     v3
+	lastMin, lastMax float64
+
 	// mesh-backed kinds
 	pos          []v3
 	idx          []int
